@@ -3,6 +3,7 @@ package main
 import (
 	"fmt"
 	"os"
+	"time"
 	"go/types"
 	"sort"
 	"strings"
@@ -304,12 +305,19 @@ func (in *Interp) feasible(c *Term) Result {
 			}
 		}
 	}
-	conj := append(append([]*Term{}, p.PC...), c)
+	conj := append(in.slicePC(c), c)
+	key := conjKey(conj)
+	if r, ok := in.qcache[key]; ok {
+		in.stats.CacheHits++
+		return r
+	}
 	in.stats.BranchQ++
 	r := in.check(conj)
 	if r == Sat {
-		in.captureModel()
 		in.endQuery()
+	}
+	if r != Unknown {
+		in.qcache[key] = r
 	}
 	if r == Unknown {
 		if d := os.Getenv("SYMGO_DUMP"); d != "" {
@@ -866,7 +874,14 @@ func (in *Interp) check(conj []*Term) Result {
 			}
 		}
 	}
+	t0 := time.Now()
 	r := in.cur.Check(conj)
+	if d := os.Getenv("SYMGO_SLOW"); d != "" {
+		if el := time.Since(t0); el > 30*time.Millisecond {
+			in.dumpN++
+			os.WriteFile(fmt.Sprintf("%s/slow-%d-%d-%dms.smt2", d, os.Getpid(), in.dumpN, el.Milliseconds()), []byte(in.cur.Script(conj)), 0o644)
+		}
+	}
 	in.pendingModel = nil
 	if r == Unknown {
 		// portfolio fallback: the same text on the other solvers, one shot
@@ -919,4 +934,64 @@ func (in *Interp) endQuery() {
 		return
 	}
 	in.cur.EndQuery()
+}
+
+// slicePC returns the conjuncts of the path condition that can influence c:
+// those sharing variables with it, transitively (constraint independence).
+// The path condition as a whole is satisfiable (every assume and branch was
+// checked), so pc ∧ c is satisfiable iff slice ∧ c is.
+func (in *Interp) slicePC(c *Term) []*Term {
+	p := in.path
+	want := map[uint32]bool{}
+	for _, v := range in.ts.VarsOf(c) {
+		want[v] = true
+	}
+	if len(want) == 0 {
+		return nil
+	}
+	used := make([]bool, len(p.PC))
+	changed := true
+	for changed {
+		changed = false
+		for i, q := range p.PC {
+			if used[i] {
+				continue
+			}
+			vs := in.ts.VarsOf(q)
+			hit := false
+			for _, v := range vs {
+				if want[v] {
+					hit = true
+					break
+				}
+			}
+			if hit {
+				used[i] = true
+				changed = true
+				for _, v := range vs {
+					want[v] = true
+				}
+			}
+		}
+	}
+	var out []*Term
+	for i, q := range p.PC {
+		if used[i] {
+			out = append(out, q)
+		}
+	}
+	return out
+}
+
+func conjKey(conj []*Term) string {
+	ids := make([]int, len(conj))
+	for i, c := range conj {
+		ids[i] = int(c.ID)
+	}
+	sort.Ints(ids)
+	var sb strings.Builder
+	for _, x := range ids {
+		fmt.Fprintf(&sb, "%d,", x)
+	}
+	return sb.String()
 }
